@@ -83,10 +83,11 @@ func monitorSeq(m *lib.Monitor, cfg config, seq []op, obs []stepObs) {
 		o := st.Op
 		input := map[string]any{"init": cfg, "ops": seq[:i+1]}
 		k := o.Kind
+		sk := o.sigKind() // the name in signatures: qualified when the operation's options are outside WOpts.Tame
 		if st.Panic {
 			documented := (k == "create" && o.Mode.ID != "") || (k == "add" && o.Mode.ID == "")
 			if !documented {
-				m.Violate("C19/panic/"+k, "the operation panicked", input, "a result or an error status", st.Err.Error())
+				m.Violate("C19/panic/"+sk, "the operation panicked", input, "a result or an error status", st.Err.Error())
 				return
 			}
 			continue
@@ -96,16 +97,22 @@ func monitorSeq(m *lib.Monitor, cfg config, seq []op, obs []stepObs) {
 		if ok && (k == "setactive" || k == "change" || k == "clear" || k == "s.change" || k == "s.clear") {
 			changed = true
 		}
+		// every listed mode is found under the id it carries (the record carries the key it is stored under): what
+		// I2's "delete of the active id is refused" and I3's "the active id is in modes" rest on
+		if len(st.After.Orphans) > 0 && len(st.Before.Orphans) == 0 {
+			m.Violate("C19/key/listed-mode-not-found-by-its-id/"+sk, "a listed mode is not found by a lookup of the id it carries: it is stored under another key, so the model can make it active under one id and delete it under the other", input, "FindMode(m.Id) finds m for every listed m", fmt.Sprintf("not found: %q", st.After.Orphans))
+			return // the root cause is reported; what follows from it (I3 at once when the record is the active mode's) is not reported separately
+		}
 		// I1, I3 after every step; reported at the step that breaks them (the signature names that operation)
 		if ns := st.After.normals(); len(ns) > 1 && len(st.Before.normals()) <= 1 {
-			m.Violate("C19/I1/more-than-one-normal-mode/"+k, "more than one mode is marked normal", input, "at most 1 normal mode", fmt.Sprintf("%d normal modes: %q", len(ns), ns))
+			m.Violate("C19/I1/more-than-one-normal-mode/"+sk, "more than one mode is marked normal", input, "at most 1 normal mode", fmt.Sprintf("%d normal modes: %q", len(ns), ns))
 		}
 		if changed && !st.After.has(st.After.Active.Id) && !(changedBefore && !st.Before.has(st.Before.Active.Id)) {
-			m.Violate("C19/I3/active-mode-not-in-modes/"+k, "the active mode (once changed) does not refer to a mode that exists", input, "active id in modes", fmt.Sprintf("active id %q not in modes", st.After.Active.Id))
+			m.Violate("C19/I3/active-mode-not-in-modes/"+sk, "the active mode (once changed) does not refer to a mode that exists", input, "active id in modes", fmt.Sprintf("active id %q not in modes", st.After.Active.Id))
 		}
 		// I2: the active mode is never deleted
 		if (k == "delete" || k == "s.delete") && ok && changedBefore && o.ID == activeKey {
-			m.Violate("C19/I2/active-mode-deleted/"+k, "the delete of the mode that had been made active succeeded", input, "FailedPrecondition, mode kept", st.Out+" (active mode selected by id "+fmt.Sprintf("%q", activeKey)+")")
+			m.Violate("C19/I2/active-mode-deleted/"+sk, "the delete of the mode that had been made active succeeded", input, "FailedPrecondition, mode kept", st.Out+" (active mode selected by id "+fmt.Sprintf("%q", activeKey)+")")
 		}
 		if ok {
 			switch k {
@@ -119,15 +126,15 @@ func monitorSeq(m *lib.Monitor, cfg config, seq []op, obs []stepObs) {
 		}
 		if k == "delete" || k == "s.delete" {
 			if o.ID == st.Before.Active.Id && st.Before.has(o.ID) && (!st.After.has(o.ID) || ok) {
-				m.Violate("C19/I2/active-mode-deleted/"+k, "the active mode was deleted (or the delete reported success)", input, "FailedPrecondition, mode kept", st.Out)
+				m.Violate("C19/I2/active-mode-deleted/"+sk, "the active mode was deleted (or the delete reported success)", input, "FailedPrecondition, mode kept", st.Out)
 			}
 			// deleting an absent mode
 			if !st.Before.has(o.ID) && o.ID != "" && o.ID != st.Before.Active.Id {
 				if o.AllowMissing && !ok {
-					m.Violate("C19/delete/allow-missing-not-ok/"+k, "deleting an absent mode with allow-missing did not succeed", input, "OK", st.Out)
+					m.Violate("C19/delete/allow-missing-not-ok/"+sk, "deleting an absent mode with allow-missing did not succeed", input, "OK", st.Out)
 				}
 				if !o.AllowMissing && !isCode(st.Err, codes.NotFound) {
-					m.Violate("C19/delete/absent-not-notfound/"+k, "deleting an absent mode did not report NotFound", input, "NotFound", st.Out)
+					m.Violate("C19/delete/absent-not-notfound/"+sk, "deleting an absent mode did not report NotFound", input, "NotFound", st.Out)
 				}
 			}
 		}
@@ -136,10 +143,10 @@ func monitorSeq(m *lib.Monitor, cfg config, seq []op, obs []stepObs) {
 			ns := st.Before.normals()
 			if len(ns) == 0 {
 				if !isCode(st.Err, codes.NotFound) {
-					m.Violate("C19/clear/no-normal-mode-not-notfound/"+k, "clearing the active mode without a normal mode did not report NotFound", input, "NotFound", st.Out)
+					m.Violate("C19/clear/no-normal-mode-not-notfound/"+sk, "clearing the active mode without a normal mode did not report NotFound", input, "NotFound", st.Out)
 				}
 			} else if !ok || !contains(ns, st.After.Active.Id) {
-				m.Violate("C19/clear/normal-mode-not-selected/"+k, "clearing the active mode did not select the normal mode", input, fmt.Sprintf("active in %q", ns), st.Out+" active="+st.After.Active.Id)
+				m.Violate("C19/clear/normal-mode-not-selected/"+sk, "clearing the active mode did not select the normal mode", input, fmt.Sprintf("active in %q", ns), st.Out+" active="+st.After.Active.Id)
 			}
 		}
 		// switching to a different mode stamps its start time with the clock's current time
@@ -147,18 +154,18 @@ func monitorSeq(m *lib.Monitor, cfg config, seq []op, obs []stepObs) {
 			if st.After.Active.Id != st.Before.Active.Id {
 				t := st.After.Active.StartTime
 				if t == nil || t.Seconds != o.Now || t.Nanos != 0 {
-					m.Violate("C19/stamp/start-time-not-now/"+k, "switching to a different mode did not stamp start_time with the clock's current time", input, fmt.Sprint(o.Now), fmt.Sprint(t))
+					m.Violate("C19/stamp/start-time-not-now/"+sk, "switching to a different mode did not stamp start_time with the clock's current time", input, fmt.Sprint(o.Now), fmt.Sprint(t))
 				}
 			}
 			if k == "change" || k == "s.change" {
 				if st.After.Active.Id != o.ID {
-					m.Violate("C19/change/wrong-mode-active/"+k, "ChangeActiveMode succeeded but another mode is active", input, o.ID, st.After.Active.Id)
+					m.Violate("C19/change/wrong-mode-active/"+sk, "ChangeActiveMode succeeded but another mode is active", input, o.ID, st.After.Active.Id)
 				}
 			}
 		}
 		// a failed operation changes nothing
 		if !ok && (strings.Join(modeStrings(st.Before), ";") != strings.Join(modeStrings(st.After), ";") || showMode(st.Before.Active) != showMode(st.After.Active)) {
-			m.Violate("C19/failed-op-changed-state/"+k, "an operation that returned an error changed the modes or the active mode", input, "state unchanged", st.State)
+			m.Violate("C19/failed-op-changed-state/"+sk, "an operation that returned an error changed the modes or the active mode", input, "state unchanged", st.State)
 		}
 	}
 }
